@@ -855,7 +855,8 @@ func (a *Analysis) CheckC06(rep *Report) {
 					}
 				}
 				materialised := false
-				if src.Op == "dyncall" || src.Op == "alloc" {
+				if src.Op == "dyncall" || src.Op == "alloc" || src.IsNilConst() {
+					// (nil stored into a part on the arm on which the part is nil – `p.Body, err = New…(key)` on a miss – changes nothing)
 					nilArm := false
 					for _, c := range p.Conds[:min(st.NCond, len(p.Conds))] {
 						v := c.V
